@@ -76,6 +76,9 @@ type Teamserver struct {
 	Clients    sync.Map // map[string]*Client
 	Users      []Users
 	EventsList []packager.Package
+	// EventsListMtx guards EventsList: events are recorded from the goroutines of all
+	// operators, listeners and agent requests
+	EventsListMtx sync.Mutex
 	Service    *service.Service
 	WebHooks   *webhook.WebHook
 	DB         *db.DB
